@@ -11,6 +11,8 @@ Driver of C15: runs `Model/Cache.lean` on the history blocks written by harness/
   cclookup <q> <result as for ins>  caching-client step at instant 0: `hit` if served from the
                                     cache, else `miss` and the upstream result is inserted
   end
+  negttl <soa_ttl|-> <minimum> <rcode>   negative TTL of a response (outside blocks)
+  realtime <ms>                     implementation-only line
   q = <id>[u]/<type>   (`u`: the harness uses an upper-case spelling of the same name)
 -/
 import HickoryVerif.Drv.Proto
@@ -154,6 +156,11 @@ def handle (s : State) (toks : List String) : Option (State × String) :=
     match Cache.get s.st q 0 with
     | some _ => pure (s, "hit")
     | none => pure ((doIns s q r 0).1, "miss")
+  | ["negttl", soaTtl, minimum, _rcode] => do
+    -- `DnsResponse::negative_ttl`: first SOA of the authority section, `ttl.min(soa.minimum)`
+    let t ← optNat soaTtl; let m ← minimum.toNat?
+    pure (s, "neg " ++ showOptNat (t.map fun t => if t ≤ m then t else m))
+  | ["realtime", _] => pure (s, "~")
   | _ => none
 
 def step (s : State) (toks : List String) : State × String :=
